@@ -3,6 +3,7 @@ import logging
 from . import CoordinateConversion, Datum, core, mixin
 from .data import Data
 from .decorators import _display_or_return, _manage_log_level_via_verbosity
+from .functions import _creation_commands_literal
 
 logger = logging.getLogger(__name__)
 
@@ -247,11 +248,10 @@ class CoordinateReference(
                     name=None,
                     namespace=namespace0,
                     indent=0,
-                    string=False,
-                    header=header,
+                    string=True,
                 )
             else:
-                value = repr(value)
+                value = _creation_commands_literal(value)
 
             out.append(f"{name}.datum.set_parameter({term!r}, {value})")
 
@@ -261,11 +261,10 @@ class CoordinateReference(
                     name=None,
                     namespace=namespace0,
                     indent=0,
-                    string=False,
-                    header=header,
+                    string=True,
                 )
             else:
-                value = repr(value)
+                value = _creation_commands_literal(value)
 
             out.append(
                 f"{name}.coordinate_conversion.set_parameter({term!r}, {value})"
